@@ -219,6 +219,7 @@ def ket_ucisd(n, na, nb, ci1A, ci1B, ci2AA, ci2AB, ci2BB, moB):
     sec = sector(n, na, nb)
     sp = sec.space
     moB = np.asarray(moB)
+    moB_dual = np.linalg.inv(moB).T
     # reference: alpha occupies 0..na-1 ; beta occupies rotated orbitals moB[:, :nb]
     Ca = np.eye(n)[:, :na]
     ref_sec = ket_uhf(n, na, nb, Ca, moB[:, :nb])
@@ -231,7 +232,9 @@ def ket_ucisd(n, na, nb, ci1A, ci1B, ci2AA, ci2AB, ci2BB, moB):
 
     def EB(a, i):
         T = np.zeros((2 * n, 2 * n))
-        T[n:, n:] = np.outer(moB[:, a], moB[:, i])
+        # replace column i by column a of moB: creator along moB[:, a], annihilator along the DUAL vector of column i
+        # (= moB[:, i] itself when moB is orthogonal)
+        T[n:, n:] = np.outer(moB[:, a], moB_dual[:, i])
         return sp.op(T)
 
     EAs = {(i, a): EA(na + a, i) for i in range(na) for a in range(nva)}
